@@ -134,7 +134,7 @@ class Contract(object):
     def __init__(self, target, types=None, requires="True", ensures=None, raises=None, modifies=None, loops=None,
                  inline=(), assumed=False, returns=None, ghost=None, pure=False, name=None, notes=None,
                  none_safety=True, frame=True, terminates=True, exc_ensures=None, locals=None, attr_overrides=None,
-                 may_raise=(), allowed_raises=(), terminates_required=False):
+                 may_raise=(), allowed_raises=(), terminates_required=False, kwargs=None):
         self.target = target
         self.types = types or {}
         self.requires = requires
@@ -145,6 +145,9 @@ class Contract(object):
         self.inline = set(inline)
         self.assumed = assumed
         self.returns = returns
+        # for a function taking **kwargs: the keyword arguments THIS contract covers, {name: type}; the contract speaks about calls
+        # that pass exactly these keywords (other call shapes are outside it)
+        self.kwargs = kwargs or {}
         self.ghost = ghost or {}
         self.pure = pure
         self.name = name or target.split(":")[1]
@@ -630,6 +633,8 @@ class Executor(object):
             return SV("func", "str." + attr, x=base)
         if base.kind.startswith("map:"):
             return SV("func", "map." + attr, x=base)
+        if base.kind == "kwdict":
+            return SV("func", "kwdict." + attr, x=base)
         raise Unsupported("attribute .%s of %s" % (attr, base.kind))
 
     def _find_property(self, cls, attr):
@@ -904,6 +909,8 @@ class Executor(object):
         return z3.Or(z3.And(an, bn), z3.And(z3.Not(an), z3.Not(bn), core))
 
     def contains(self, st, container, item, ln):
+        if container.kind == "kwdict":
+            return z3.BoolVal(self._kw_key(item) in container.t)
         if container.kind.startswith("set:"):
             return z3.Select(container.t, item.t)
         if container.kind.startswith("map:"):
@@ -981,6 +988,13 @@ class Executor(object):
         return self.subscript_other(e, st, base)
 
     def subscript_other(self, e, st, base):
+        if base.kind == "kwdict":
+            key = self._kw_key(self.ev(e.slice, st))
+            if key in base.t:
+                return base.t[key]
+            x = st.copy()
+            self.pending_raises.append(Exit("raise", x, exc="KeyError", lineno=getattr(e, "lineno", None)))
+            raise DeadPath()
         if base.kind == "tuple":
             idx = self.ev(e.slice, st)
             k = self._as_pyint(idx)
@@ -1000,6 +1014,22 @@ class Executor(object):
             self.map_store(st, base, z3.Store(base.t, kt, v.t), z3.Store(base.x[3], kt, True))
             return
         raise Unsupported("subscript store at line %s" % ln)
+
+    # ---- the **kwargs dictionary of the function under contract: a fixed set of literal keys (Contract.kwargs)
+    def _kw_key(self, k):
+        if k.kind == "str" and isinstance(k.x, str):
+            return k.x
+        raise Unsupported("**kwargs accessed with a key that is not a string literal")
+
+    def kwdict_method(self, st, d, name, args, ln):
+        if name == "get":
+            key = self._kw_key(args[0])
+            if key in d.t:
+                return d.t[key]
+            return args[1] if len(args) > 1 else NoneV()
+        if name == "__contains__":
+            return SV("bool", z3.BoolVal(self._kw_key(args[0]) in d.t))
+        raise Unsupported("**kwargs.%s" % name)
 
     def map_delete(self, st, m, k, ln):
         """del m[k]: KeyError when absent"""
@@ -1290,6 +1320,8 @@ class Executor(object):
                 return self.str_method(st, f.x, f.t[4:], args, ln)
             if isinstance(f.t, str) and f.t.startswith("map."):
                 return self.map_method(st, f.x, f.t[4:], args, ln)
+            if isinstance(f.t, str) and f.t.startswith("kwdict."):
+                return self.kwdict_method(st, f.x, f.t[7:], args, ln)
             if f.x is not None:  # bound method
                 return self.call_method(st, f.x, f.t, args, kw, ln)
             # class-qualified or module function
